@@ -697,21 +697,30 @@ class Repo:
         it = ast.walk(f.node) if into_nested else walk_no_defs(f.node, include_lambdas=True)
         return [n for n in it if isinstance(n, ast.Call)]
 
+    def call_index(self) -> dict[str, list[tuple[FuncInfo, ast.Call, bool]]]:
+        """callee -> [(function, call, exact)] over the whole package, built in one pass and cached."""
+        if self._callers_cache is None:
+            idx: dict[str, list[tuple[FuncInfo, ast.Call, bool]]] = {}
+            for f in self.all_functions():
+                for c in self.calls_in(f):
+                    for cal in self.callees(f, c):
+                        ex = not cal.startswith('?')
+                        idx.setdefault(cal.lstrip('?'), []).append((f, c, ex))
+            self._callers_cache = idx
+        return self._callers_cache
+
     def call_sites_of(self, target: str, *, exact: bool = False) -> list[tuple[FuncInfo, ast.Call]]:
-        """Every call in the package whose resolved callee is ``target`` (suffix match on qualified name)."""
+        """Every call in the package whose resolved callee is ``target``."""
         tq = self._qual(target)
         out = []
-        for f in self.all_functions():
-            for c in self.calls_in(f):
-                for cal in self.callees(f, c):
-                    if cal.startswith('?'):
-                        if exact:
-                            continue
-                        cal = cal[1:]
-                    if cal == tq:
-                        out.append((f, c))
-                        break
-        # module-level calls
+        seen = set()
+        for f, c, ex in self.call_index().get(tq, []):
+            if exact and not ex:
+                continue
+            if id(c) in seen:
+                continue
+            seen.add(id(c))
+            out.append((f, c))
         return out
 
     def _qual(self, ref: str) -> str:
